@@ -114,7 +114,6 @@ RATE_KINDS = ["r12", "r34", "r1"]
 CRC_KINDS = DH_KINDS + ["pi_header", "short_lc_null", "short_lc_activity"] + RATE_KINDS
 ALL_KINDS = CRC_KINDS + ["hrnp"]
 
-DECODE_ERRORS = (Exception,)  # any exception out of the parser is a decode error for this property
 
 
 # ====================================================================================================== PDU adapters
@@ -307,8 +306,6 @@ def oracle_rt_small(case):
     L = _lib()
     if case["pdu"] == "slot_type":
         st, o = call(L.SlotType, case["cc"], case["dt"])
-        if o.fec_parity_ok is not True and o.fec_parity_ok != True:
-            raise Fail("constructed_indicator_true", o.fec_parity_ok, True, klass="slot_type")
         bits = bitarray(call(o.as_bits)[1].tolist())
         if len(bits) != 20:
             raise Fail("serialised_length", len(bits), 20, klass="slot_type")
@@ -324,8 +321,6 @@ def oracle_rt_small(case):
             raise Fail("parsed_fields_equal", dump(p), dump(o), klass="slot_type")
         return
     st, o = call(L.EmbeddedSignalling, case["cc"], case["pi"], case["lcss"])
-    if not (o.emb_parity_ok is True or o.emb_parity_ok == True):
-        raise Fail("constructed_indicator_true", o.emb_parity_ok, True, klass="emb")
     bits = bitarray(call(o.as_bits)[1].tolist())
     if len(bits) != 16:
         raise Fail("serialised_length", len(bits), 16, klass="emb")
@@ -343,8 +338,6 @@ def oracle_rt_pdu(case):
     """case = PDU description.  Returns the check value (int) for the driver's non-trivial rule."""
     k = case["kind"]
     st, o = call(build, case)
-    if indicator(case, o) is not True:
-        raise Fail("constructed_indicator_true", indicator(case, o), True, klass=k)
     st, wire = call(serialise, case, o)
     n = expected_wire_bits(case)
     if n is not None and len(wire) != n:
@@ -429,8 +422,11 @@ def oracle_fault(case):
     rx = wire.copy()
     for p in case["flips"]:
         rx.invert(p)
-    st, p1 = call(parse, pdu, rx, allowed=DECODE_ERRORS)
-    if st == "raised":
+    try:
+        p1 = parse(pdu, rx)
+    except Exception as e:  # any exception out of the *library's* parser is a decode error for this property
+        if not lib_raised(e):
+            raise
         return "decode_error"
     if p1 is None:
         return "decode_error"
@@ -474,66 +470,64 @@ def _burst_patterns(n, lo, hi):
 _PATTERNS = {}
 
 
-def patterns_for(n, t, w, tier, seed_label, full_burst_len, n_sampled_bursts, n_sampled_w3, rng_factory):
-    """Deterministic list of (class label, code-word positions) for one PDU of n code bits."""
-    key = (n, t, w, tier, seed_label, full_burst_len, n_sampled_bursts, n_sampled_w3)
+def patterns_complete(n, t, w, full_burst_len, all_w3):
+    """Deterministic list of (class label, code-word positions): every pattern of weight <= t (weight 3 only when
+    ``all_w3``), every burst of length <= full_burst_len with every interior pattern, solid bursts of the remaining
+    lengths <= w.  Burst patterns of weight <= t are not repeated."""
+    key = (n, t, w, full_burst_len, all_w3)
     if key in _PATTERNS:
         return _PATTERNS[key]
     out = []
     for i in range(n):
-        out.append(("weight_1", [i]))
+        out.append(("weight_1", (i,)))
     if t >= 2:
         for c in itertools.combinations(range(n), 2):
-            out.append(("weight_2", list(c)))
-    if t >= 3:
-        if n_sampled_w3 is None:
-            for c in itertools.combinations(range(n), 3):
-                out.append(("weight_3", list(c)))
-        else:
-            rng = rng_factory("w3", seed_label)
-            seen = set()
-            while len(seen) < n_sampled_w3:
-                c = tuple(sorted(rng.sample(range(n), 3)))
-                if c not in seen:
-                    seen.add(c)
-                    out.append(("weight_3_sampled", list(c)))
-    # bursts (patterns of weight <= t are already covered above)
-    for pat in _burst_patterns(n, 2, min(full_burst_len, w)):
+            out.append(("weight_2", c))
+    if t >= 3 and all_w3:
+        for c in itertools.combinations(range(n), 3):
+            out.append(("weight_3", c))
+    fb = min(full_burst_len, w)
+    for pat in _burst_patterns(n, 2, fb):
         if len(pat) > t:
-            out.append((f"burst_le_{min(full_burst_len, w)}", pat))
-    for L in range(full_burst_len + 1, w + 1):  # solid bursts of every remaining length
-        for s in range(0, n - L + 1):
-            out.append(("burst_solid", list(range(s, s + L))))
-    if w > full_burst_len and n_sampled_bursts:
-        rng = rng_factory("bursts", seed_label)
-        seen = set()
-        guard = 0
-        while len(seen) < n_sampled_bursts and guard < 50 * n_sampled_bursts:
-            guard += 1
-            L = rng.randint(full_burst_len + 1, w)
-            s = rng.randint(0, n - L)
-            inner = rng.getrandbits(L - 2)
-            pat = tuple([s] + [s + 1 + i for i in range(L - 2) if (inner >> i) & 1] + [s + L - 1])
-            if len(pat) > t and len(pat) < L and pat not in seen:
-                seen.add(pat)
-                out.append(("burst_long_sampled", list(pat)))
-    _PATTERNS.clear()
+            out.append((f"burst_len_le_{fb}", tuple(pat)))
+    for L in range(fb + 1, w + 1):
+        if L > t:
+            for s in range(0, n - L + 1):
+                out.append(("burst_solid", tuple(range(s, s + L))))
+    if len(_PATTERNS) >= 4:
+        _PATTERNS.clear()
     _PATTERNS[key] = out
     return out
 
 
+def patterns_sampled(n, t, w, full_burst_len, n_bursts, n_w3, rng):
+    """Seeded sample of the classes that are too large to enumerate: weight-3 patterns (when not complete) and bursts
+    longer than full_burst_len with random interiors."""
+    out = []
+    if t >= 3 and n_w3:
+        seen = set()
+        while len(seen) < n_w3:
+            c = tuple(sorted(rng.sample(range(n), 3)))
+            if c not in seen:
+                seen.add(c)
+                out.append(("weight_3_sampled", c))
+    fb = min(full_burst_len, w)
+    if w > fb and n_bursts:
+        seen = set()
+        guard = 0
+        while len(seen) < n_bursts and guard < 50 * n_bursts:
+            guard += 1
+            L = rng.randint(fb + 1, w)
+            s = rng.randint(0, n - L)
+            inner = rng.getrandbits(L - 2)
+            pat = tuple([s] + [s + 1 + i for i in range(L - 2) if (inner >> i) & 1] + [s + L - 1])
+            if t < len(pat) < L and pat not in seen:
+                seen.add(pat)
+                out.append(("burst_long_sampled", pat))
+    return out
+
+
 # ------------------------------------------------------------------------------------------------ PDU generators (rng)
-
-
-def _solve_low_weight(pdu, field, width, target_check, check_of):
-    """Construction, not filtering: find the value of one ``width``-bit field that gives the PDU the wanted check value.
-    ``check_of(pdu) -> int`` is the *reference* check computation on field values (no library involved).  Consecutive
-    ``width`` message bits map bijectively onto the remainder, so exactly one value fits when width == check width."""
-    for v in range(1 << width):
-        pdu[field] = v
-        if check_of(pdu) == target_check:
-            return True
-    return False
 
 
 def ref_wire(pdu):
@@ -617,33 +611,60 @@ def _csbk_opcodes():
     return _CSBKO
 
 
-LOW_WEIGHT_FIELD = {"dh_confirmed": ("src", 24, 16), "dh_unconfirmed": ("src", 24, 16), "short_lc_activity": ("ad2", 8, 8)}
+LOW_WEIGHT_WINDOW = {
+    # kind: (check width, setter of the w-bit window value v into the PDU description) - w consecutive message bits
+    "dh_confirmed": 16,
+    "dh_unconfirmed": 16,
+    "short_lc_activity": 8,
+    "r12": 9,
+    "r34": 9,
+    "r1": 9,
+}
+
+
+def _set_window(p, v):
+    k = p["kind"]
+    if k.startswith("dh_"):
+        p["src"] = (p["src"] & 0xFF0000) | v  # wire bits 48..63
+    elif k == "short_lc_activity":
+        p["ad2"] = v  # wire bits 20..27
+    else:
+        d = bytearray(bytes.fromhex(p["data"]))  # low bit of octet 0 and octet 1: nine consecutive message bits
+        d[0] = (d[0] & 0xFE) | (v >> 8)
+        d[1] = v & 0xFF
+        p["data"] = bytes(d).hex()
 
 
 def gen_low_weight_check_pdu(rng, kind, last=None):
-    """A PDU whose check value has weight 1..2 (so that a weight<=t corruption can zero the check field and still touch
-    a data bit).  The free field is solved for through the *reference* serialisation."""
+    """A PDU whose check value has weight 1..2 (so that a corruption inside the guaranteed set can zero the check field
+    and still touch a data bit).  Construction, not filtering: w consecutive message bits map bijectively (and
+    affinely) onto the w-bit check value, so the window value is solved for on the *reference* serialisation."""
     p = gen_pdu(rng, kind, last=last)
-    if kind in RATE_KINDS:
-        w = 9
-        target = _low_weight_value(rng, w, 1)
-        data = bytearray(bytes.fromhex(p["data"]))
-        base_hi = data[0] & 0x7F
-        for v in range(512):  # nine consecutive message bits: low bit of octet 0 .. octet 1
-            data[0] = (base_hi & 0xFE) | (v >> 8)
-            data[1] = v & 0xFF
-            p["data"] = bytes(data).hex()
-            if ref_wire(p)[1] == target:
-                return p
-        raise HarnessError("no 9-bit solution for CRC-9 target")
-    field, fw, w = LOW_WEIGHT_FIELD[kind]
+    w = LOW_WEIGHT_WINDOW[kind]
     target = _low_weight_value(rng, w, 2 if w == 16 else 1)
-    hi = (p[field] >> w) << w
-    for v in range(1 << w):
-        p[field] = hi | v
-        if ref_wire(p)[1] == target:
-            return p
-    raise HarnessError(f"no solution for low-weight check value of {kind}")
+    _set_window(p, 0)
+    base = ref_wire(p)[1]
+    basis = []
+    for i in range(w):
+        _set_window(p, 1 << i)
+        basis.append(ref_wire(p)[1] ^ base)
+    need = base ^ target
+    val = cur = 0
+    found = need == 0
+    if not found:
+        for i in range(1, 1 << w):
+            bit = (i & -i).bit_length() - 1
+            val ^= 1 << bit
+            cur ^= basis[bit]
+            if cur == need:
+                found = True
+                break
+    if not found:
+        raise HarnessError(f"no window value gives {kind} the check value {target:#x}")
+    _set_window(p, val)
+    if ref_wire(p)[1] != target:
+        raise HarnessError("low-weight construction inconsistent")
+    return p
 
 
 def _low_weight_value(rng, w, max_weight):
@@ -981,11 +1002,10 @@ def make_fault_driver(group):
             rng = ctx.rng("fault_pdus", kind)
             pdus = []
             for i in range(n_rand):
-                last = None if kind not in RATE_KINDS else bool(i % 2)
-                pdus.append(("random", gen_pdu(rng, kind, pool, last=last) if kind in RATE_KINDS else gen_pdu(rng, kind, pool)))
+                pdus.append(("random", gen_pdu(rng, kind, pool, last=bool(i % 2)) if kind in RATE_KINDS else gen_pdu(rng, kind, pool)))
             for i in range(n_low):
-                if kind in LOW_WEIGHT_FIELD or kind in RATE_KINDS:
-                    pdus.append(("low_weight_check", gen_low_weight_check_pdu(rng, kind, last=bool(i % 2)) if kind in RATE_KINDS else gen_low_weight_check_pdu(rng, kind)))
+                if kind in LOW_WEIGHT_WINDOW:
+                    pdus.append(("low_weight_check", gen_low_weight_check_pdu(rng, kind, last=bool(i % 2))))
             for j, (pcls, pdu) in enumerate(pdus):
                 n = expected_wire_bits(pdu)
                 if n is None:  # hrnp: length depends on the payload
@@ -997,33 +1017,42 @@ def make_fault_driver(group):
                     gp = R.guaranteed(g, n)
                     t_all, w = gp["max_weight_all"], gp["burst"]
                 label = f"{kind}:{j}"
-                pats = patterns_for(n, t_all, w, ctx.tier, label, full_burst, n_sb, n_w3, lambda *a: ctx.rng("patterns", *a))
+                all_w3 = n_w3 is None
+                spec = (kind, pcls, pdu, n, t_all, w, label, full_burst, n_sb, n_w3, all_w3)
+                npat = len(patterns_complete(n, t_all, w, full_burst, all_w3))
                 step = 4000
-                for lo in range(0, len(pats), step):
-                    items.append((kind, pcls, pdu, n, t_all, w, label, full_burst, n_sb, n_w3, lo, min(len(pats), lo + step)))
-                plan_note[label] = {"pdu_class": pcls, "code_bits": n, "patterns": len(pats), "all_weights_up_to": t_all, "burst_up_to": w}
+                for lo in range(0, npat, step):
+                    items.append(spec + ("complete", lo, min(npat, lo + step)))
+                if (n_sb and w > full_burst) or (n_w3 and t_all >= 3):
+                    items.append(spec + ("sampled", 0, 0))
+                plan_note[label] = {"pdu_class": pcls, "code_bits": n, "enumerated_patterns": npat, "sampled_long_bursts": n_sb if w > full_burst else 0,
+                                    "sampled_weight_3": (n_w3 or 0) if t_all >= 3 else 0, "all_weights_up_to": t_all if all_w3 else min(t_all, 2), "burst_up_to": w,
+                                    "bursts_with_every_interior_up_to": min(full_burst, w)}
         ctx.tally.extra.setdefault("fault_plan", {}).update(plan_note)
 
         def work(it, t: Tally):
-            kind, pcls, pdu, n, t_all, w, label, full_burst, n_sb, n_w3, lo, hi = it
+            kind, pcls, pdu, n, t_all, w, label, full_burst, n_sb, n_w3, all_w3, part, lo, hi = it
             g, layout = code_params(pdu, n)
-            pats = patterns_for(n, t_all, w, ctx.tier, label, full_burst, n_sb, n_w3, lambda *a: ctx.rng("patterns", *a))
+            if part == "complete":
+                pats = patterns_complete(n, t_all, w, full_burst, all_w3)[lo:hi]
+            else:
+                pats = patterns_sampled(n, t_all, w, full_burst, n_sb, n_w3, ctx.rng("patterns", label))
             counts = {}
-            for pcl, code_pos in pats[lo:hi]:
-                flips = sorted(layout[c] for c in code_pos)
-                case = {"pdu": pdu, "flips": flips}
+            for pcl, code_pos in pats:
+                case = {"pdu": pdu, "flips": sorted(layout[c] for c in code_pos)}
                 outcome, ok = _run(ctx, sub.name, oracle_fault, case, t)
                 key = (pcl, outcome or ("known_finding" if ok else "violation"))
                 counts[key] = counts.get(key, 0) + 1
             for (pcl, outcome), c in sorted(counts.items()):
                 t.case(sub.name, nontrivial=outcome != "harmless", cls=f"{kind}:{pcl}", n=c)
                 t.cls(sub.name, f"outcome:{kind}:{outcome}", c)
-                t.cls(sub.name, f"pdu_class:{pcls}", c)
-            mid = pats[lo + (hi - lo) // 2]
-            t.sample(sub.name, {"pdu": pdu, "flips": sorted(layout[c] for c in mid[1])})
+                t.cls(sub.name, f"pdu_class:{kind}:{pcls}", c)
+            if pats:
+                mid = pats[len(pats) // 2]
+                t.sample(sub.name, {"pdu": pdu, "flips": sorted(layout[c] for c in mid[1])})
 
         ctx.shards(work, items)
-        # complete over the stated pattern classes per PDU; PDUs are sampled
+        # complete over the stated pattern classes per PDU; the PDUs themselves are sampled
         ctx.tally.exhaustive[sub.name] = False
 
     return drv
